@@ -10,6 +10,7 @@ import (
 	"strings"
 
 	"golang.org/x/tools/go/packages"
+	"golang.org/x/tools/go/ssa"
 	"golang.org/x/tools/go/types/typeutil"
 )
 
@@ -23,6 +24,7 @@ func checkC09(c *Ctx, r *Report) {
 	checkRSFullParity(c, r)
 	checkRSWord(c, r)
 	checkRowScan(c, r)
+	checkHintForwarding(c, r)
 	r.Rule("S-RSACCEPT", "ReedSolomonDecoder.Decode, folded from source with everything it calls over every one of the 16^3 words of length 3 with 2 check symbols - in GF(16) with generator base 1 (the Data Matrix / Aztec convention) and base 0 (the QR convention) - either reports an error or leaves a codeword at most one symbol away from the word it was given: a sampled grid that is not within the correction radius of a codeword is rejected, never delivered", 2)
 	accDoms := []rsAcceptDom{{newRefGF(0x13, 16, 1), "GF(16)/0x13 base 1", 3, 2}, {newRefGF(0x13, 16, 0), "GF(16)/0x13 base 0", 3, 2}}
 	if c.Tier == "thorough" {
@@ -1051,4 +1053,104 @@ func checkOrientation(c *Ctx, r *Report) {
 		badP = "the result points are not remapped to the upright image"
 	}
 	r.Check(badP == "", "M-ORIENT", key+"/points", c.pos(fd.Pos()), badP)
+}
+
+// M-HINTFWD: the caller's hints reach every callee that takes hints
+func checkHintForwarding(c *Ctx, r *Report) {
+	r.Rule("M-HINTFWD", "in every reader and decoder function that has a decode-hints parameter, each call that passes decode hints on hands over that very parameter, a map built in the function (a filtered copy), or a choice between such values - never nil or some other map: a retry (mirrored QR reading, rotated or reversed attempts, per-reader dispatch) must decode under the hints the caller gave", 20)
+	isHints := func(t types.Type) bool {
+		m, ok := t.Underlying().(*types.Map)
+		if !ok {
+			return false
+		}
+		n, ok := m.Key().(*types.Named)
+		return ok && n.Obj().Name() == "DecodeHintType"
+	}
+	var fs []*ssa.Function
+	for f := range c.allFuncs {
+		if f.Blocks == nil || !isRepoPkgFn(f) || f.Synthetic != "" {
+			continue
+		}
+		if f.Pkg != nil && strings.HasSuffix(f.Pkg.Pkg.Path(), "/testutil") {
+			continue
+		}
+		has := false
+		for _, p := range f.Params {
+			if isHints(p.Type()) {
+				has = true
+			}
+		}
+		if has {
+			fs = append(fs, f)
+		}
+	}
+	sort.Slice(fs, func(i, j int) bool { return fs[i].String() < fs[j].String() })
+	sites := 0
+	for _, f := range fs {
+		busy := map[*ssa.Phi]bool{}
+		var ok func(v ssa.Value, depth int) bool
+		ok = func(v ssa.Value, depth int) bool {
+			if depth > 12 {
+				return false
+			}
+			switch x := v.(type) {
+			case *ssa.Parameter:
+				return isHints(x.Type())
+			case *ssa.MakeMap:
+				return true
+			case *ssa.Phi:
+				if busy[x] {
+					return true // a loop-carried value: decided by its other edges
+				}
+				busy[x] = true
+				defer delete(busy, x)
+				for _, e := range x.Edges {
+					if !ok(e, depth+1) {
+						return false
+					}
+				}
+				return true
+			case *ssa.UnOp:
+				// a local variable spilled to an alloc (closures, defers): every store to it must qualify
+				if al, isAl := x.X.(*ssa.Alloc); isAl && x.Op == token.MUL {
+					for _, ref := range *al.Referrers() {
+						if st, isSt := ref.(*ssa.Store); isSt && st.Addr == ssa.Value(al) && !ok(st.Val, depth+1) {
+							return false
+						}
+					}
+					return true
+				}
+			case *ssa.ChangeType:
+				return ok(x.X, depth+1)
+			}
+			return false
+		}
+		ord := 0
+		for _, b := range f.Blocks {
+			for _, in := range b.Instrs {
+				call, isCall := in.(ssa.CallInstruction)
+				if !isCall {
+					continue
+				}
+				for _, a := range call.Common().Args {
+					if !isHints(a.Type()) {
+						continue
+					}
+					sites++
+					key := fmt.Sprintf("%s#%d", shortFn(f), ord)
+					ord++
+					if ok(a, 0) {
+						r.Pass("M-HINTFWD", key, c.pos(call.Pos()), "")
+					} else {
+						what := fmt.Sprintf("%T", a)
+						if cst, isC := a.(*ssa.Const); isC && cst.IsNil() {
+							what = "nil"
+						}
+						r.Fail("M-HINTFWD", key, c.pos(call.Pos()), "violation", "decode hints are passed on as "+what+" instead of the hints this function was given")
+					}
+				}
+			}
+		}
+	}
+	r.Extra("M-HINTFWD sites", sites)
 }
